@@ -362,7 +362,8 @@ eq_check(const char * after)
 		sim_viol("C12.eq.content", "beyond", "elasticqueue_get beyond the end returned a record");
 	for (i = 0; i < 6; i++)
 		if (elasticqueue_get(EQ, SIZE_MAX - i) != NULL || elasticqueue_get(EQ, SIZE_MAX / 2 + i) != NULL ||
-		    elasticqueue_get(EQ, SIZE_MAX / eq_reclen - i) != NULL || elasticqueue_get(EQ, SIZE_MAX / eq_reclen + 1 + i) != NULL)
+		    elasticqueue_get(EQ, SIZE_MAX / eq_reclen - i) != NULL ||
+		    (eq_reclen > 1 && elasticqueue_get(EQ, SIZE_MAX / eq_reclen + 1 + i) != NULL))
 			sim_viol("C12.eq.content", "beyond-huge", "elasticqueue_get of a huge position returned a record");
 	LIB_LEAVE();
 }
